@@ -71,6 +71,23 @@ func runTCPCloseInner(c *TCPCloseCase) (res tcpCloseResult) {
 			srv.handle(append([]byte{}, buf[:k]...))
 		}
 	}()
+	// data connections: the server end hangs up as soon as the ConnectionBind request arrives
+	// (the accept then fails; what matters here is who is blocked where when Close comes)
+	if dl, lerr := n.ListenTCPAt("tcp4", net.IPv4(10, 0, 0, 1), 3478); lerr == nil {
+		go func() {
+			for {
+				dc, aerr := dl.AcceptConn()
+				if aerr != nil {
+					return
+				}
+				go func() {
+					one := make([]byte, 1)
+					_, _ = dc.Read(one)
+					_ = dc.Close()
+				}()
+			}
+		}()
+	}
 	cl, err := turn.NewClient(&turn.ClientConfig{
 		TURNServerAddr: "10.0.0.1:3478", Conn: csock, Net: &sim.TNet{N: n}, Username: "alice", Password: "pw", Realm: "sim.realm", LoggerFactory: logger, RTO: 100 * time.Millisecond,
 	})
@@ -91,12 +108,14 @@ func runTCPCloseInner(c *TCPCloseCase) (res tcpCloseResult) {
 			return tcpCloseResult{kind: "reallocate-failed", msg: fmt.Sprintf("round %d: AllocateTCP after the previous allocation was closed failed: %v", round, aerr), rounds: res.rounds}
 		}
 		for a := 0; a < c.Accepts; a++ {
-			go func() {
-				_ = ta.SetDeadline(time.Now().Add(time.Second))
+			go func(a int) {
+				if a%2 == 1 {
+					_ = ta.SetDeadline(time.Now().Add(time.Second))
+				} // (the others rely on Close: "any blocked Accept operations will be unblocked and return errors")
 				if conn, err := ta.AcceptTCP(); err == nil {
 					_ = conn.Close()
 				}
-			}()
+			}(a)
 		}
 		synctest.Wait()
 		gate := make(chan struct{})
@@ -167,6 +186,22 @@ func TestC18ClientTCPClose(t *testing.T) {
 			r.Violate(kind, msg, &c)
 		}
 
+		return
+	}
+	for _, f := range r.RegressFiles(".tcpclose.json") {
+		var c TCPCloseCase
+		if err := vkit.LoadJSON(f, &c); err != nil {
+			t.Fatalf("bad regress file %s: %v", f, err)
+		}
+		for i := 0; i < 3; i++ {
+			if kind, msg := do(&c, ""); kind != "" {
+				r.Violate(kind, "regress "+f+": "+msg, &c)
+
+				break
+			}
+		}
+	}
+	if r.Violations() > 0 {
 		return
 	}
 	r.Rapid(t, "tcp-close-race", 0, r.Checks, func(rt *rapid.T) {
